@@ -373,8 +373,13 @@ def gen_sig_scenario(rng, params, sid, quick=True):
         events = [e for e in events if e[0] not in ("evict", "rmentry") and e[-1] != "side"
                   and not (e[0] == "rewrap" and e[2] in ("dump", "load"))]
     sc["events"] = events
+    if rng.random() < 0.3 and not sc.get("backend"):
+        sc["loc_form"] = rng.choice(["path", "tilde"])     # Memory(pathlib.Path(...)) / Memory("~/...") (HOME in the sandbox)
     if multi:
         sc["hashseeds"] = rng.sample(["0", "1", "2", "random", "4242"], 5)
+        if kind in ("def", "method", "async") and rng.random() < 0.5:
+            # the function MOVES in its file between the sessions (lines added / removed above it), text unchanged
+            sc["pads"] = [rng.choice([0, 1, 2, 5]) for _ in range(6)]
         if kind == "def" and rng.random() < 0.6:
             # the function is defined in a notebook cell and the kernel is restarted under another pid
             sc["versions"]["0"]["kind"] = "ipycell"
@@ -576,6 +581,23 @@ def fixed_scenarios(prop):
                     "params": [["a", "pk", None], ["b", "pk", None], ["c", "pk", I(12)], ["d", "ko", I(13)]],
                     "ignore": [], "compress": False, "versions": V, "mode": "own", "events": ev})
     if prop in ("C02", "C06"):
+        # C06-13: the function MOVES in its file between two sessions (lines added above it), text unchanged
+        ev = []
+        for n in range(3):
+            ev += [["define", 0], ["wrap", 0], _call(0, [1], kind="check"), _call(0, [1]), _call(0, [2])]
+            if n < 2:
+                ev.append(["newprocess"])
+        out.append({"id": "fixed-function-moved-in-file", "type": "sig", "callback": False, "pads": [0, 3, 1],
+                    "params": [["a", "pk", None], ["b", "pk", I(0)]], "ignore": [], "compress": False,
+                    "versions": {"0": {"tag": "v0", "path": "verifmod.py", "pad": 0, "kind": "def"}}, "events": ev})
+        # C06-14: Memory(pathlib.Path) / Memory("~/..."): Memory.clear(), a call, then a fresh process
+        for form in ("path", "tilde"):
+            ev = [["define", 0], ["wrap", 0], _call(0, [1]), _call(0, [1]), ["clearmem"], _call(0, [1], kind="check"),
+                  _call(0, [1]), _call(0, [2]), ["newprocess"], ["define", 0], ["wrap", 0], _call(0, [1], kind="check"),
+                  _call(0, [1]), _call(0, [2], kind="check"), _call(0, [2])]
+            out.append({"id": "fixed-location-%s-clear" % form, "type": "sig", "callback": False, "loc_form": form,
+                        "params": [["a", "pk", None], ["b", "pk", I(0)]], "ignore": [], "compress": False,
+                        "versions": {"0": {"tag": "v0", "path": "verifmod.py", "pad": 0, "kind": "def"}}, "events": ev})
         # the documented store-backend interface on an object store that is not a directory tree
         ev = [["define", 0], ["wrap", 0]]
         for pos, kw in (([1], []), ([1, 2], []), ([1], [("b", 2)]), ([], [("b", 2), ("a", 1)]), ([3], []), ([1], [])):
@@ -770,6 +792,31 @@ def fixed_scenarios(prop):
                     "ignore": [], "compress": False, "versions": V, "mode": "same",
                     "events": [["define", 1], ["wrap", 1, 1], cl(1, 1), ["newprocess"], ["define", 2], ["wrap", 2, 0],
                                ["wrap", 2, 1], cl(2, 0), cl(2, 1), cl(2, 0), cl(2, 1), cl(2, 1, 1)]})
+        # C12-13: the file is edited while session 1 runs version 1; cf.clear() in that session; a fresh session
+        # imports version 2
+        out.append({"id": "fixed-clear-after-file-edit", "type": "c12", "params": [["x", "pk", None]], "ignore": [],
+                    "compress": False, "versions": V, "mode": "same",
+                    "events": [["define", 1], ["wrap", 1], _c(1), _c(1, 1), ["define", 2], ["clearfunc", 1], _c(1), _c(1, 1),
+                               _c(1), ["newprocess"], ["define", 2], ["wrap", 2], _c(2), _c(2, 1), _c(2)]})
+        # C12-14: Memory.eval of a function that is redefined between the evaluations (and of two lambdas)
+        def ce(k, a=0):
+            return ["call", k, {"pos": [I(a)], "kw": [], "via": "eval"}, True]
+        for kd in ("def", "lambda"):
+            V2 = {k_: dict(v_, kind=kd, path="mod_%s.py" % k_) for k_, v_ in V.items()}
+            out.append({"id": "fixed-eval-redefined-%s" % kd, "type": "c12", "eval_wrapper": False,
+                        "params": [["x", "pk", None]], "ignore": [], "compress": False, "versions": V2, "mode": "own",
+                        "events": [["define", 1], ["wrap", 1], ce(1), ["wrap", 1], ce(1), ["wrap", 1], ["define", 2],
+                                   ["wrap", 2], ce(2), ["wrap", 2], ce(2, 1), ["wrap", 2], ce(2), ["wrap", 2]]})
+        # C02-13: process A validates version 1 against the store written by an earlier process and keeps running
+        # while process B (edited code) wipes and refills the cache
+        Vp = {str(k_): {"tag": "v%d" % t_, "path": "verifmod.py", "pad": 0, "kind": "def", "text": t_}
+              for k_, t_ in ((1, 1), (2, 1), (3, 2))}
+        out.append({"id": "fixed-live-process-overtaken", "type": "c12", "procs": 3,
+                    "params": [["x", "pk", None]], "ignore": [], "compress": False, "versions": Vp, "mode": "same",
+                    "events": [["proc", 0], ["define", 1], ["wrap", 1], _c(1, 1), _c(1, 2),
+                               ["proc", 1], ["define", 2], ["wrap", 2], _c(2, 1), _c(2, 1),
+                               ["proc", 2], ["define", 3], ["wrap", 3], _c(3, 1), _c(3, 2),
+                               ["proc", 1], _c(2, 1), _c(2, 2), _c(2, 1)]})
         # ALIASES of one directory (location 1 = "<dir>/./", location 2 = a symlink to it): Memory.clear() through one
         # spelling, further calls through another, then a redefinition under the same name
         out.append({"id": "fixed-aliases-clear-then-redefine", "type": "c12", "locs": 3,
@@ -813,6 +860,12 @@ def fixed_scenarios(prop):
               _c(1, 1), ["newprocess"], ["define", 2], ["wrap", 2], _c(2, 1), _c(2)]
         out.append({"id": "fixed-sourceless-literal-edit", "type": "c12", "params": [["x", "pk", None]], "ignore": [],
                     "compress": False, "versions": V, "mode": "own", "events": ev})
+        Vg = {str(k_): {"tag": "g%d" % k_, "path": "nosrc.py", "pad": 0, "kind": "sourceless", "text": k_, "gname": k_}
+              for k_ in (1, 2)}
+        out.append({"id": "fixed-sourceless-global-name-edit", "type": "c12", "params": [["x", "pk", None]],
+                    "ignore": [], "compress": False, "versions": Vg, "mode": "own",
+                    "events": [["define", 1], ["wrap", 1], _c(1), _c(1), ["newprocess"], ["define", 2], ["wrap", 2], _c(2),
+                               _c(2), ["define", 1], ["wrap", 1], _c(1)]})
         # two different lambdas in one process: l1(a); l1(a); l2(a); l1(a)  (own files and one file)
         for same in (False, True):
             V = {str(k): {"tag": "v%d" % k, "path": "verifmod.py" if same else "mod_v%d.py" % k, "pad": 0,
@@ -868,6 +921,46 @@ def gen_names_scenario(rng, sid, members=None):
 def mtext(sc, v):
     """text identity of a version as the MODEL sees it (one text for the same-named-callables stream)"""
     return 0 if sc.get("multi_id") else v.get("text", 0)
+
+
+def gen_procs_scenario(rng, sid):
+    """INTERLEAVED LIVE PROCESSES on one cache directory: each process imports its own version of the function (its
+    function objects have their own model indices), keeps running while the others clear / refill the cache.  In
+    the model all of them act on ONE M4 state: the store is shared, _FUNCTION_HASHES is per process, and an object
+    index belongs to one process, so no table entry is shared."""
+    nproc = rng.choice([2, 2, 3])
+    ntext = rng.choice([2, 2, 3])
+    kind = rng.choice(["def", "def", "nested", "lambda"])
+    versions = {}
+    sc = {"id": sid, "type": "c12", "procs": nproc, "params": [["x", "pk", None]], "ignore": [], "compress": False,
+          "versions": versions, "mode": "same"}
+    events = []
+    mine = {p_: [] for p_ in range(nproc)}      # object ids of each process
+    cur = None
+    for _ in range(rng.randint(8, 22)):
+        p_ = rng.randrange(nproc)
+        if p_ != cur:
+            events.append(["proc", p_])
+            cur = p_
+        r = rng.random()
+        if not mine[p_] or r < 0.15:
+            k = max([int(x) for x in versions] + [0]) + 1
+            text = rng.randint(1, ntext)
+            versions[str(k)] = {"tag": "v%d" % text, "path": "verifmod.py", "pad": 0, "kind": kind, "text": text}
+            events += [["define", k], ["wrap", k]]
+            mine[p_].append(k)
+        elif r < 0.20:
+            events.append(["clearfunc", rng.choice(mine[p_])])
+        else:
+            # (Memory.clear() while ANOTHER process is alive is not generated: the other process keeps its
+            #  _FUNCTION_HASHES and func_code.py is not rewritten -- the documented observation of design.d/C06.md)
+            k = rng.choice(mine[p_][-2:])
+            cs = {"pos": [I(rng.choice([0, 0, 1]))], "kw": []}
+            if rng.random() < 0.3:
+                events.append(["check", k, cs, True])
+            events.append(["call", k, cs, True])
+    sc["events"] = events
+    return sc
 
 
 def gen_loc_scenario(rng, sid):
@@ -1073,7 +1166,14 @@ def gen_c12_scenario(rng, sid):
             if rng.random() < 0.12:
                 nref = sum(1 for e in events if e[0] == "shelve")
                 events += [["shelve", k, cs, True], ["get", nref]]
-            events.append(["call", k, cs, vld])
+            if vld and rng.random() < 0.12:
+                # memory.eval(f, x): a decoration of its own for this one call; followed by a fresh persistent
+                # wrapper so that model (one wrapper per object) and implementation stay in step
+                events += [["wrap", k], ["call", k, dict(cs, via="eval"), True], ["wrap", k]]
+            else:
+                events.append(["call", k, cs, vld])
+            if rng.random() < 0.06:
+                events.append(["clearfunc", k])         # cf.clear() in a live session
             called_text = versions[str(k)]["text"]
             nshelved = sum(1 for e in events if e[0] == "shelve")
             if nshelved and rng.random() < 0.12:
@@ -1190,6 +1290,8 @@ def run_scenario(sc, timeout=300):
         moddir = os.path.join(tmp, "mods")
         os.makedirs(cache)
         os.makedirs(moddir)
+        if sc.get("procs"):
+            return run_live_processes(sc, cache, moddir, tmp, timeout)
         segs, cur = [], []
         for i, ev in enumerate(sc["events"]):
             if ev[0] == "newprocess":
@@ -1206,7 +1308,7 @@ def run_scenario(sc, timeout=300):
             job = {"cache": cache, "moddir": moddir, "refs": os.path.join(tmp, "refs.pkl"),
                    "scenario": {k: sc[k] for k in ("versions", "params", "ignore", "compress", "verbose", "mmap_mode",
                                                    "picklable", "callback", "pids", "backend", "body_ignore", "loc_alias",
-                                                   "keep_mtime")
+                                                   "keep_mtime", "pads", "loc_form", "eval_wrapper")
                                 if k in sc}, "events": seg,
                    "segment": nseg}
             p = subprocess.run([common.PYNP if sc.get("py") == "np" else common.PY,
@@ -1221,6 +1323,52 @@ def run_scenario(sc, timeout=300):
                            for i, ev in enumerate(sc["events"])]}
     finally:
         shutil.rmtree(tmp, ignore_errors=True)
+
+
+def run_live_processes(sc, cache, moddir, tmp, timeout):
+    """several LONG-LIVED interpreters on one cache directory, driven over pipes: ["proc", p] switches the process
+    that performs the following events; a process keeps its function objects, wrappers and _FUNCTION_HASHES while
+    the others run"""
+    children = {}
+    results = {}
+    try:
+        batches, cur = [], None
+        for i, ev in enumerate(sc["events"]):
+            if ev[0] == "proc":
+                cur = ev[1]
+                results[i] = {"idx": i, "o": "skip"}
+                continue
+            if batches and batches[-1][0] == cur:
+                batches[-1][1].append([i, ev])
+            else:
+                batches.append((cur, [[i, ev]]))
+        for p_, evs in batches:
+            if p_ not in children:
+                ch = subprocess.Popen([common.PY, os.path.join(common.ROOT, "harness", "impl", "c02_impl.py"), "--serve"],
+                                      stdin=subprocess.PIPE, stdout=subprocess.PIPE, stderr=subprocess.DEVNULL,
+                                      text=True, env=common.impl_env())
+                children[p_] = ch
+                msg = {"cache": cache, "moddir": moddir, "refs": os.path.join(tmp, "refs_%s.pkl" % p_),
+                       "scenario": {k: sc[k] for k in ("versions", "params", "ignore", "compress", "callback",
+                                                        "keep_mtime") if k in sc}, "events": evs, "segment": p_}
+            else:
+                ch = children[p_]
+                msg = {"events": evs}
+            ch.stdin.write(json.dumps(msg) + "\n")
+            ch.stdin.flush()
+            line = ch.stdout.readline()
+            if not line.strip():
+                return {"harness_error": "live process %s died" % p_}
+            for r in json.loads(line):
+                results[r["idx"]] = r
+        return {"events": [results.get(i, {"harness_error": "missing"}) for i in range(len(sc["events"]))]}
+    finally:
+        for ch in children.values():
+            try:
+                ch.stdin.close()
+                ch.wait(timeout=20)
+            except Exception:  # noqa
+                ch.kill()
 
 
 def run_scenarios(scs, workers=None):
@@ -1563,7 +1711,7 @@ def model_terms(sc, res):
             return None
         if t == "hotreload":
             hist.append("Define %d; Wrap %d" % (ev[2], ev[2]))
-        elif t in ("rewrap", "pickled", "recache"):
+        elif t in ("rewrap", "pickled", "recache", "proc"):
             hist.append("Get 999999")     # the copy has the state of the original: no model event (OSkip)
         elif t == "recode":
             hist.append("Wrap %d" % ev[1])    # an equal code object: the wrapper drops its cached source text
@@ -1849,7 +1997,8 @@ def gen_for(ctx, prop, n=None):
                 + [gen_edit_scenario(rng, "edit-%d" % i) for i in range(35 if quick else 600)]
                 + [gen_indent_scenario(rng, "indent-%d" % i) for i in range(30 if quick else 400)]
                 + [gen_names_scenario(rng, "names-%d" % i) for i in range(30 if quick else 400)]
-                + [gen_loc_scenario(rng, "loc-%d" % i) for i in range(50 if quick else 600)])
+                + [gen_loc_scenario(rng, "loc-%d" % i) for i in range(45 if quick else 600)]
+                + [gen_procs_scenario(rng, "procs-%d" % i) for i in range(25 if quick else 300)])
     sigs3 = enum_signatures(3)
     sigs = enum_signatures(4 if quick else 5)
     n = n or (230 if quick else 3000)
@@ -1865,6 +2014,11 @@ def gen_for(ctx, prop, n=None):
         # same-named callables of one module (other qualname = other function identifier)
         scs += [sc_ for sc_ in fixed_scenarios("C12") if sc_["id"] == "fixed-same-named-callables"]
         scs += [gen_names_scenario(rng, "names-%d" % i) for i in range(10 if quick else 100)]
+        # source-less functions edited between sessions, a live process overtaken by another one with edited code
+        scs += [sc_ for sc_ in fixed_scenarios("C12") if sc_["id"] in ("fixed-sourceless-literal-edit",
+                                                                     "fixed-sourceless-global-name-edit",
+                                                                     "fixed-live-process-overtaken")]
+        scs += [gen_procs_scenario(rng, "procs-%d" % i) for i in range(12 if quick else 100)]
     if numpy_available():
         scs += fixed_numpy_scenarios()
         scs += [gen_numpy_scenario(rng, "np-%d" % i) for i in range(30 if quick else 400)]
@@ -1914,11 +2068,33 @@ def run_property(ctx, prop):
     prio = {"wrong-value": 0, "wrong-value-get": 0, "wrong-version": 0, "recomputed": 1, "unchanged-recomputed": 1,
             "rejected": 1, "check-mismatch": 1, "key-collision": 2, "key-split": 2}
     unknown.sort(key=lambda x: prio.get(x[0]["kind"], 3))
+    # ---- model
+    disagreements, n_model, adm_mismatch = model_compare(ctx, scs, ress, prop.lower())
+    # a wrong version / needless recomputation counts as the KNOWN finding of its admissibility clause only if the
+    # faithful model (which contains F10 / F31) reproduces the history: where model and implementation part, the
+    # deviation is something else
+    parted = {id(d_["scenario"]) for d_ in disagreements if "scenario" in d_}
+    for key_ in list(known):
+        if key_ in (K_F10, K_SAMEFILE):
+            keep_ = []
+            for d, sc in known[key_]:
+                if id(sc) in parted:
+                    unknown.append((d, sc))
+                else:
+                    keep_.append((d, sc))
+            if keep_:
+                known[key_] = keep_
+            else:
+                del known[key_]
+    if prop != "C12":
+        # F10 / F31 are C12's known findings: where the model reproduces them they are not reported again here
+        known.pop(K_F10, None)
+        known.pop(K_SAMEFILE, None)
+    prio_ = {"wrong-value": 0, "wrong-value-get": 0, "wrong-version": 0}
+    unknown.sort(key=lambda x: prio_.get(x[0]["kind"], 1))
     for d, sc in unknown[:3]:
         ctx.violation("%s: %s" % (d["kind"], d["what"]), {"kind": "oracle", "scenario": strip(sc), "event": d["event"]},
                       True)
-    # ---- model
-    disagreements, n_model, adm_mismatch = model_compare(ctx, scs, ress, prop.lower())
     if disagreements and not unknown:
         hit = search_failing(ctx, prop, 400)
         d0 = disagreements[0]
